@@ -1,6 +1,7 @@
 package rules
 
 import (
+	"go/constant"
 	"go/token"
 	"strings"
 
@@ -192,6 +193,25 @@ func rulePatternTotality(c *eng.Ctx) {
 			}
 			c.Check(!bad, rule, "match:bad-pattern-error-reported", call.Pos(), "a malformed glob reported by filepath.Match ends match with an error")
 		}
+	}
+	// 5. a pattern component is compared literally (the fast path) only if it contains none of the
+	// characters filepath.Match interprets: `\` (escape), `[`, `*`, `?`
+	if pp := c.NeedFn(rule, pkgFilter+".preparePattern"); pp != nil {
+		calls := c.P.CallsTo(pp, "strings.ContainsAny")
+		okSet := false
+		var set string
+		for _, call := range calls {
+			if k, isK := eng.Arg(call, 1).(*ssa.Const); isK && k.Value != nil && k.Value.Kind() == constant.String {
+				set = constant.StringVal(k.Value)
+				okSet = true
+				for _, ch := range []string{"\\", "[", "*", "?"} {
+					if !strings.Contains(set, ch) {
+						okSet = false
+					}
+				}
+			}
+		}
+		c.Check(okSet, rule, "preparePattern:literal-fast-path-excludes-all-metacharacters", pp.Pos(), "isSimple is decided by strings.ContainsAny(part, %q): the set must contain every character filepath.Match treats specially (\\ [ * ?), otherwise an escaped component like `\\#tmp` is compared byte by byte and never matches", set)
 	}
 	c.Floor(rule, 14, 16)
 }
